@@ -167,6 +167,27 @@ pub fn c08_case(ctx: &mut Ctx, text: &str, m: &MapSpec) {
             }
           }
         }
+        // ... and for the EMPTY text: the streamers return before they announce anything (as in
+        // webpack-sources), so a map with sources / names is not "declared exactly": recorded as a
+        // known finding under a narrow key; anything else an empty text declares is a violation
+        if text.is_empty() {
+          let declared_sources = s.events.iter().filter(|e| matches!(e, Ev::Source { .. })).count();
+          let declared_names = s.events.iter().filter(|e| matches!(e, Ev::Name { .. })).count();
+          if declared_sources == 0 && declared_names == 0 {
+            if !m.sources.is_empty() || (columns && !m.names.is_empty()) {
+              ctx.violation(
+                "sms_empty_text_declares_no_tables",
+                format!("columns={columns} final={fin}"),
+                Some("KF3-empty-text-declares-no-tables".into()),
+                || case_json(&t),
+                m.segs.len() + text.len(),
+                format!("T is empty, M has sources {:?} and names {:?}: the stream declares nothing", m.sources, m.names),
+              );
+            }
+          } else if declared_sources != m.sources.len() || (columns && declared_names != m.names.len()) {
+            fail(ctx, "sms_declared_sources", format!("columns={columns} final={fin} (empty text)"), format!("empty text: {declared_sources} sources and {declared_names} names declared, M has {:?} / {:?}", m.sources, m.names));
+          }
+        }
         streams.push(((columns, fin), s));
       }
     }
